@@ -486,7 +486,7 @@ class Session:
                 if time.time() - t0 > timeout:
                     raise vlib.Infra("sentinel measurement never became visible: " + body[:300])
                 time.sleep(0.2)
-        time.sleep(0.3)
+        time.sleep(1.0)
         return name
 
     def raw_query(self, db, q):
@@ -553,6 +553,18 @@ class Session:
         if not r.get("series"):
             return None
         return {"series": r["series"]}
+
+    def read_points_settled(self, wanted, acked):
+        """read_points, then re-read (up to 4 times, 1.5 s apart) what was acknowledged but is not visible yet:
+        the series index makes new series searchable shard by shard, the sentinel only bounds the usual lag"""
+        out = self.read_points(wanted)
+        for _ in range(4):
+            again = [w for w in wanted if w[0] in acked and out.get(w[0]) is None]
+            if not again:
+                break
+            time.sleep(1.5)
+            out.update(self.read_points(again))
+        return out
 
     def measurements(self, db):
         st, body = self.raw_query(db, "show measurements")
@@ -761,7 +773,8 @@ def observe_all(sess, ccs, extra_wanted=()):
     res = sess.post_all([(cc["id"], cc["db"], cc["body"] + cc.get("eol", ""), cc["prec"]) for cc in live])
     sess.wait_visible()
     wanted = [(cc["id"], cc["db"], cc["exp"]["mst"]) for cc in live if cc["exp"]["mst"] is not None]
-    stored = sess.read_points(wanted + list(extra_wanted))
+    acked = {cc["id"] for cc in live if 200 <= res[cc["id"]][0] < 300}
+    stored = sess.read_points_settled(wanted + list(extra_wanted), acked)
     ftypes = {db: sess.field_types(db) for db in sess.dbs}
     for cc in live:
         st, txt, t0, t1 = res[cc["id"]]
@@ -846,7 +859,8 @@ def run_batches(sess, batches):
     res = sess.post_all([(b["id"], "c06", b["body"], b["prec"]) for b in batches])
     sess.wait_visible()
     wanted = [(m["id"], "c06", m["exp"]["mst"]) for b in batches for m in b["members"]]
-    stored = sess.read_points(wanted)
+    acked = {m["id"] for b in batches if 200 <= res[b["id"]][0] < 300 for m in b["members"] if m["valid"]}
+    stored = sess.read_points_settled(wanted, acked)
     ftypes = sess.field_types("c06")
     for b in batches:
         st, txt, t0, t1 = res[b["id"]]
